@@ -8,8 +8,9 @@
 (*    n   batch size n_t >= 1                                               *)
 (*    b   temperature   beta_t = b/2,          b \in {0,1,2}                *)
 (*    m   evidence      logZ_t = m * ln 2                                   *)
-(*    ks  n even integers, logL_s = k * ln 2   (sorted: order inside a      *)
-(*        batch is a symmetry of the formula, see PermInvariant)            *)
+(*    ks  n even integers, logL_s = k * ln 2   (sorted: a weight depends on  *)
+(*        its own k only, so the order inside a batch is a symmetry; the    *)
+(*        binding replays ascending and descending order)                   *)
 (* and the requested temperature is beta_final = bf/2.  Because k is even   *)
 (* every tempered density exp(beta_t*logL - logZ_t) = 2^(b*k/2 - m) is a    *)
 (* power of two, so                                                         *)
@@ -40,7 +41,8 @@ CONSTANTS Ts,         \* set of history lengths T explored
           ShiftMax,   \* ShiftInvariant is checked for the even c # 0 in -ShiftMax..ShiftMax
           Variant,    \* "intended" | "NoLogZ" | "NoMixW" | "MixT" | "MeanT" | "MaxNorm"
           SampleMod,  \* keep only histories with (Hash + SampleSalt) % SampleMod = 0  (1 = keep all)
-          SampleSalt
+          BatchMod,   \* build histories only from batches with (BHash + SampleSalt) % BatchMod = 0  (1 = all)
+          SampleSalt  \* derived from VERIF_SEED
 
 VARIABLES pc, hist, bf, mixB, w, z, W
 
@@ -174,17 +176,23 @@ NormW(h, f)   == NormFrom(UnnormW(h, f))
 
 Sorted(n) == {s \in [1..n -> Ks] : \A i \in 1..(n - 1) : s[i] <= s[i + 1]}
 
-BatchSet ==
-    UNION {{[n |-> n, b |-> b, m |-> m, ks |-> ks] : b \in Bs, m \in Ms, ks \in Sorted(n)} : n \in 1..NMax}
-
 RECURSIVE KHash(_, _)
 KHash(ks, i) == IF i = 0 THEN 0 ELSE KHash(ks, i - 1) + (2 * i + 1) * (ks[i] + 23)
+
+BHash(bt) == 7 * bt.n + 11 * bt.b + 13 * (bt.m + 5) + KHash(bt.ks, bt.n)
+
+AllBatches ==
+    UNION {{[n |-> n, b |-> b, m |-> m, ks |-> ks] : b \in Bs, m \in Ms, ks \in Sorted(n)} : n \in 1..NMax}
+
+\* (sampling, quick tier only: a seed-dependent subset of the batches)
+BatchSet == IF BatchMod = 1 THEN AllBatches
+            ELSE {bt \in AllBatches : (BHash(bt) + SampleSalt) % BatchMod = 0}
 
 RECURSIVE HashTo(_, _)
 HashTo(h, t) ==
     IF t = 0 THEN 0
     ELSE ((HashTo(h, t - 1) * 31) % 65521)
-         + (7 * h[t].n + 11 * h[t].b + 13 * (h[t].m + 5) + KHash(h[t].ks, h[t].n)) * (t + 1)
+         + BHash(h[t]) * (t + 1)
 Hash(h) == HashTo(h, Len(h))
 
 Keep(h) == SampleMod = 1 \/ (Hash(h) + SampleSalt) % SampleMod = 0
